@@ -153,6 +153,8 @@ struct Ctx {
     last_task: Option<u32>,
     task_ids: HashMap<tokio::task::Id, u32>,
     db_op_count: HashMap<u16, u64>,
+    /// site of every database operation released, per handle, in order (bounded)
+    db_op_sites: HashMap<u16, Vec<Site>>,
     stats: RunStats,
     hasher: std::hash::SipHasher,
     /// when true, operations pass the gate without parking (oracle reads, set-up)
@@ -273,6 +275,14 @@ pub fn db_ops_so_far(handle: u16) -> u64 {
     CTX.with(|c| c.borrow().as_ref().and_then(|c| c.db_op_count.get(&handle).copied()).unwrap_or(0))
 }
 
+pub fn db_op_sites(handle: u16) -> Vec<Site> {
+    CTX.with(|c| c.borrow().as_ref().and_then(|c| c.db_op_sites.get(&handle).cloned()).unwrap_or_default())
+}
+
+pub fn pending_count() -> usize {
+    CTX.with(|c| c.borrow().as_ref().map(|c| c.pending.len()).unwrap_or(0))
+}
+
 pub fn reset_db_op_count(handle: u16) {
     CTX.with(|c| {
         if let Some(ctx) = c.borrow_mut().as_mut() {
@@ -344,6 +354,7 @@ where
         last_task: None,
         task_ids: HashMap::new(),
         db_op_count: HashMap::new(),
+        db_op_sites: HashMap::new(),
         stats: RunStats::default(),
         hasher: std::hash::SipHasher::new(),
         ungated: false,
@@ -446,6 +457,10 @@ where
                     let cnt = ctx.db_op_count.entry(p.desc.handle).or_insert(0);
                     let k = *cnt;
                     *cnt += 1;
+                    let sites = ctx.db_op_sites.entry(p.desc.handle).or_default();
+                    if sites.len() < 100_000 {
+                        sites.push(p.desc.site);
+                    }
                     if ctx.cfg.faults.fail_at.iter().any(|(h, kk)| *h == p.desc.handle && *kk == k) {
                         verdict = Verdict::Fail;
                     } else if faults_on {
